@@ -5,7 +5,7 @@
    of program.Start and [admin_doc_keys] (contrib/nsqadmin.cfg.example) likewise
    (gen/AdminOptTable.v). *)
 From Coq Require Import String List NArith Bool.
-From NSQV Require Import model.Judge model.Names gen.AdminRoutes gen.AdminOptTable model.Admin model.AdminCfg proofs.AdminProofs proofs.AdminCfgProofs.
+From NSQV Require Import model.Judge model.Names gen.AdminRoutes gen.AdminOptTable gen.AdminModes model.Admin model.AdminCfg model.AdminReconf proofs.AdminProofs proofs.AdminCfgProofs proofs.AdminReconfProofs.
 Import ListNotations.
 Open Scope list_scope.
 Open Scope N_scope.
@@ -349,6 +349,122 @@ Theorem C17_config_guarded_any_path : forall cp l cfg rc w p r rq c ip,
 Proof. exact launch_config_guarded. Qed.
 Print Assumptions C17_config_guarded_any_path.
 
+(* ------------------------------------------------------------------ run-time reconfiguration *)
+
+(* The upstream addresses are not fixed at start: PUT /config/nsqlookupd_http_addresses replaces
+   the nsqlookupd list of a running nsqadmin, also of one started with --nsqd-http-address (then
+   BOTH lists are set, which nsqadmin.New itself refuses).  Regenerated from the source
+   (gen/AdminModes.v): GetTopicProducers / GetProducers choose nsqlookupd mode iff the nsqlookupd
+   list is not empty; every handler hands clusterinfo the lists of the options in force at the
+   time of the request, both, nsqlookupd first; doConfig can set nsqlookupd_http_addresses and
+   log_level and nothing else. *)
+Theorem C17_mode_table : ci_mode_choice = mode_choice_model.
+Proof. exact mode_choice_current. Qed.
+Print Assumptions C17_mode_table.
+
+Theorem C17_handlers_pass_lists_in_force : forallb call_opts_ok ci_call_opts = true /\ actions_called = true.
+Proof. exact call_opts_current. Qed.
+Print Assumptions C17_handlers_pass_lists_in_force.
+
+Theorem C17_put_options_table : cfg_put_options = put_options_model.
+Proof. exact put_options_current. Qed.
+Print Assumptions C17_put_options_table.
+
+(* for EVERY configuration, lists in force and /config request: the request becomes the new
+   nsqlookupd list exactly when it is a PUT of nsqlookupd_http_addresses whose body decodes, from
+   inside the allowed CIDR (or with none configured); anything else leaves both lists alone *)
+Theorem C17_reconf_accepts : forall cfg ad q,
+  apply_cfgreq cfg admin_routes ad q =
+  if sets_lookupds cfg q then mkAddrs (q_value q) (ad_nsqds ad) else ad.
+Proof. exact apply_cfgreq_spec. Qed.
+Print Assumptions C17_reconf_accepts.
+
+Theorem C17_reconf_outside_ignored : forall cfg ad q,
+  config_gate (cf_cidr cfg) (q_remote q) <> GatePass ->
+  apply_cfgreq cfg admin_routes ad q = ad /\ o_swapped (cfgreq_outcome cfg admin_routes q) = false /\
+  (o_status (cfgreq_outcome cfg admin_routes q) = 403 \/ o_status (cfgreq_outcome cfg admin_routes q) = 400).
+Proof. exact cfgreq_outside_ignored. Qed.
+Print Assumptions C17_reconf_outside_ignored.
+
+(* for EVERY history of /config requests: the nsqd list is the one of the start, the nsqlookupd
+   list is the value of the last accepted PUT (the list of the start when there was none) *)
+Theorem C17_reconf_nsqds_fixed : forall cfg qs ad,
+  ad_nsqds (run_cfgreqs cfg admin_routes ad qs) = ad_nsqds ad.
+Proof. exact nsqds_never_change. Qed.
+Print Assumptions C17_reconf_nsqds_fixed.
+
+Theorem C17_reconf_last_accepted : forall cfg qs ad,
+  ad_lookupds (run_cfgreqs cfg admin_routes ad qs) =
+  match last_set cfg qs None with Some l => l | None => ad_lookupds ad end.
+Proof. exact lookupds_last_accepted. Qed.
+Print Assumptions C17_reconf_last_accepted.
+
+Theorem C17_reconf_last_step : forall cfg qs q,
+  last_set cfg (qs ++ [q]) None = if sets_lookupds cfg q then Some (q_value q) else last_set cfg qs None.
+Proof. exact last_set_app. Qed.
+Print Assumptions C17_reconf_last_step.
+
+(* "every relevant nsqd": whatever the lists were at start and however they were changed, the
+   producers of an action are looked up through the nsqlookupds in force when there is one, and
+   through the static nsqd list only when there is none *)
+Theorem C17_reconf_mode_rule : forall univ ad t,
+  get_topic_producers (world_at univ ad) t =
+  match ad_lookupds ad with
+  | [] => get_nsqd_topic_producers (world_at univ ad) t
+  | _ => get_lookupd_topic_producers (world_at univ ad) t
+  end.
+Proof. exact mode_rule. Qed.
+Print Assumptions C17_reconf_mode_rule.
+
+Theorem C17_reconf_lookup_asks_lookupds_in_force : forall univ ad t,
+  ad_lookupds ad <> [] ->
+  map uc_addr (lr_calls (get_topic_producers (world_at univ ad) t)) = ad_lookupds ad.
+Proof. exact lookup_asks_lookupds_in_force. Qed.
+Print Assumptions C17_reconf_lookup_asks_lookupds_in_force.
+
+(* the actions after ANY history: pause / unpause / empty POST once to every producer found
+   through the lists in force; delete POSTs to every nsqlookupd in force and to those producers;
+   create goes to every nsqlookupd in force *)
+Theorem C17_reconf_producer_actions : forall cfg univ ad0 qs a name uri qf,
+  In (name, uri, qf) producer_actions ->
+  let ad := run_cfgreqs cfg admin_routes ad0 qs in
+  let w := world_at univ ad in
+  let r := match ad_lookupds ad with
+           | [] => get_nsqd_topic_producers w (a_topic a)
+           | _ => get_lookupd_topic_producers w (a_topic a)
+           end in
+  let o := run_action w name a in
+  match lr_producers r with
+  | None => o_status o = 502 /\ posts (o_calls o) = []
+  | Some ps => o_status o = 200 /\ posts (o_calls o) = post_to uri qf a ps
+  end.
+Proof. exact reconf_producer_actions. Qed.
+Print Assumptions C17_reconf_producer_actions.
+
+Theorem C17_reconf_delete_actions : forall cfg univ ad0 qs a name uri qf,
+  In (name, uri, qf) delete_actions ->
+  let ad := run_cfgreqs cfg admin_routes ad0 qs in
+  let w := world_at univ ad in
+  let r := match ad_lookupds ad with
+           | [] => get_nsqd_topic_producers w (a_topic a)
+           | _ => get_lookupd_topic_producers w (a_topic a)
+           end in
+  let o := run_action w name a in
+  match lr_producers r with
+  | None => o_status o = 502 /\ posts (o_calls o) = []
+  | Some ps => o_status o = 200 /\ posts (o_calls o) = post_to uri qf a (ad_lookupds ad) ++ post_to uri qf a ps
+  end.
+Proof. exact reconf_delete_actions. Qed.
+Print Assumptions C17_reconf_delete_actions.
+
+Theorem C17_reconf_create_topic : forall cfg univ ad0 qs a,
+  has_channel a = false ->
+  let ad := run_cfgreqs cfg admin_routes ad0 qs in
+  let o := run_action (world_at univ ad) "CreateTopicChannel" a in
+  o_status o = 200 /\ posts (o_calls o) = post_to "topic/create" "topic=%s" a (ad_lookupds ad).
+Proof. exact reconf_create_topic. Qed.
+Print Assumptions C17_reconf_create_topic.
+
 (* ------------------------------------------------------------------ non-vacuity *)
 
 (* the state-changing routes of the current source tree *)
@@ -444,3 +560,29 @@ Example C17_witness_no_start :
        mkLaunch [("lookupd-http-address"%string, ex_l1)] [("allow_config_from_cidr"%string, CVStr [])]]
   = [false; false; false; true].
 Proof. vm_compute. reflexivity. Qed.
+
+(* run-time reconfiguration: nsqadmin started with --nsqd-http-address n0 (CIDR 127.0.0.1/8).  A PUT
+   of [l1] from 10.0.0.1 is refused and changes nothing; the same PUT from 127.0.0.1 is accepted:
+   both lists are now set.  l1 lists the producers n0 and n1: delete topic goes to l1, n0 AND n1
+   (not to the static n0 alone); a PUT of [] brings the direct mode back: n0 alone *)
+Definition ex_n0 : bytes := [110;48].
+Definition ex_n1 : bytes := [110;49].
+Definition ex_univ : world :=
+  mkWorld [(ex_l1, LProducers [ex_n0; ex_n1])]
+          [(ex_n0, NStats true (Some ([], [52]))); (ex_n1, NStats true (Some ([], [52])))] NodeInfoFail [].
+Definition ex_cfg8 : acfg := mkCfg [ex_alice] ex_hdr (Some (C4 2130706433 8)).
+Definition ex_put (v : list bytes) (ip : N) : cfgreq := mkCfgReq true OptLookupdAddrs PutValid v (Some (IP4 ip)).
+
+Example C17_witness_reconf :
+  let start := mkAddrs [] [ex_n0] in
+  let act ad := map uc_addr (posts (o_calls (run_action (world_at ex_univ ad) "DeleteTopic" (mkArgs [116] [] [])))) in
+  let outside := run_cfgreqs ex_cfg8 admin_routes start [ex_put [ex_l1] 167772161] in
+  let inside := run_cfgreqs ex_cfg8 admin_routes start [ex_put [ex_l1] 167772161; ex_put [ex_l1] 2130706433] in
+  let back := run_cfgreqs ex_cfg8 admin_routes start [ex_put [ex_l1] 2130706433; ex_put [] 2130706433] in
+  (outside, act outside) = (start, [ex_n0]) /\
+  (inside, act inside) = (mkAddrs [ex_l1] [ex_n0], [ex_l1; ex_n0; ex_n1]) /\
+  (back, act back) = (start, [ex_n0]) /\
+  sets_lookupds ex_cfg8 (ex_put [ex_l1] 2130706433) = true /\
+  sets_lookupds ex_cfg8 (ex_put [ex_l1] 167772161) = false /\
+  sets_lookupds ex_cfg8 (mkCfgReq true OptOtherKnown PutValid [ex_l1] (Some (IP4 2130706433))) = false.
+Proof. vm_compute. repeat split; reflexivity. Qed.
